@@ -274,6 +274,48 @@ def make_inputs(ctx, drv, quick):
     warn_docs = [inp.add("doc", b, tree=cg.tree_of_bytes(b)[0], exact=True, counts=False, cls="warndoc", tokc=False, sens=False)
                  for b in cg.WARNING_DOCS]
     empty_doc = inp.add("doc", b"", tree=None, exact=False, counts=False, cls="emptydoc", tokc=False, sens=None)
+    # ---- H. API-built models in every "lazily fixable" state a service might be tempted to repair in place
+    lazy = []
+    for k in range(30 if quick else 300):
+        lines, info = sg.random_model_script(rng, valid=True, p_math=0.6, n_resets=(0, 2), p_import=rng.choice([0.0, 0.0, 0.3]),
+                                             link_units=0.0, fix_interfaces=rng.random() < 0.5, p_units_by_pointer=rng.choice([0.0, 0.5, 1.0]),
+                                             p_id=rng.choice([0.0, 0.1, 0.5]), n_components=(1, 4), vars_per_component=(1, 3),
+                                             n_units=(1, 3), p_initial=0.6)
+        n = info["nslots"]
+        extra, feats = [], []
+        vs, cs = info["variables"], [c for c in info["components"] if c not in info["imported"]]
+        if rng.random() < 0.5:
+            extra += ["component %d %s" % (n, sg.S("empty_c")), "addcomponent %d %d" % (info["model"], n)]
+            n += 1
+            feats.append("empty-component")
+        if rng.random() < 0.5:
+            extra += ["units %d %s" % (n, sg.S("empty_u")), "addunits %d %d" % (info["model"], n)]
+            n += 1
+            feats.append("empty-units")
+        if vs and rng.random() < 0.5:
+            v = rng.choice(vs)
+            extra += ["reset %d" % n, "setvariable %d %d" % (n, v), "settestvariable %d %d" % (n, v),
+                      "addreset %d %d" % (info["var_owner"][v], n)]
+            n += 1
+            feats.append("reset-without-order")
+        if len(vs) > 1 and rng.random() < 0.5:
+            v, w2 = rng.sample(vs, 2)
+            extra.append("setinitialvalue_v %d %d" % (v, w2))
+            feats.append("initial-value-by-reference")
+        if vs and rng.random() < 0.5:
+            v = rng.choice(vs)
+            extra += ["units %d %s" % (n, sg.S("foreign_u")), "addunit_ref %d %s" % (n, sg.S("second")), "setunits_p %d %d" % (v, n)]
+            n += 1
+            feats.append("foreign-units-object")
+        if vs and rng.random() < 0.5:
+            extra.append("setunits_n %d %s" % (rng.choice(vs), sg.S(rng.choice(info["units_names"] or ["second"]))))
+            feats.append("units-by-name")
+        if vs and rng.random() < 0.4:
+            extra.append("removeinterfacetype %d" % rng.choice(vs))
+            feats.append("interface-removed")
+        # the final fixvariableinterfaces / linkunits of the generator (if any) come before the extras: the extras stay unfixed
+        lazy.append(inp.add("script", ";".join(lines + extra).encode(), cls="lazy", maths=None, forests=None, tokc=True, sens=None,
+                            feats=feats + (["imports"] if info["imported"] else [])))
     # ---- F. bad inputs
     bad_docs = [inp.add("doc", b, tree=None, exact=False, counts=False, cls="baddoc", tokc=True, sens=None) for b in
                 [b"<model xmlns=\"http://www.cellml.org/cellml/2.0#\" name=\"m\"><component></model>",
@@ -297,7 +339,11 @@ def make_inputs(ctx, drv, quick):
     doc_of_script = {}
     for d in docs:
         doc_of_script.setdefault(inp.meta[d]["src"], []).append(d)
-    return inp, dict(near=near, attr1x=attr1x, onex=onex, warn_docs=warn_docs, empty_doc=empty_doc, doc_of_script=doc_of_script,
+    tpath = os.path.join(ctx.workdir, "pre3.table")
+    inp.write(tpath)
+    outs = run_driver(drv, tpath, ["G:1 deep:1 build:%s:m validate:v:m analyse:a:m print:r:m flatten:i:m:f" % b for b in lazy], ctx.workdir, "pre3")
+    lazy = [b for b, o in zip(lazy, outs) if parse_out(o) is not None]     # (a model that kills a service on its own is C01's / C09's)
+    return inp, dict(lazy=lazy, near=near, attr1x=attr1x, onex=onex, warn_docs=warn_docs, empty_doc=empty_doc, doc_of_script=doc_of_script,
                      scripts=scripts, docs=docs, res=res, ana=ana, graphs=graphs, bad_docs=bad_docs,
                      bad_scripts=bad_scripts, badmath=badmath, libw=libw)
 
@@ -673,6 +719,39 @@ class Builder:
             c.info.update(input=x, interferer=cat)
         return c
 
+    # -- every "leaves its input unchanged" service on API-built models in lazily fixable states
+    def immut_case(self):
+        r = self.rng
+        c = Case("immutability", r.randrange(2))
+        x = r.choice(self.sets["lazy"])
+        m = self.fresh("m")
+        c.add("deep:1", ("O",))
+        c.add("build:%s:%s:ms" % (x, m), ("O",))
+        c.info.update(input=x, features=self.inp.meta[x].get("feats"))
+        ops = r.sample(["print", "printauto", "validate", "analyse", "generate", "flatten", "flatten", "resolve", "annot", "clone"], r.randint(2, 4))
+        for op in ops:
+            if op in ("print", "printauto"):
+                c.add("print:%s:%s%s" % (self.fresh("r"), m, ":auto" if op == "printauto" else ""), ("R", ("slot", m)))
+            elif op == "validate":
+                c.add("validate:%s:%s" % (self.fresh("v"), m), ("V", ("slot", m)))
+            elif op in ("analyse", "generate"):
+                a = self.fresh("a")
+                c.add("analyse:%s:%s" % (a, m), ("A", ("slot", m)))
+                if op == "generate":
+                    c.add("generate:%s:%s:%s" % (self.fresh("g"), a, r.choice(["c", "py"])), ("O",))
+            elif op == "flatten":
+                c.add("flatten:%s:%s:%s" % (self.fresh("i"), m, self.fresh("f")), ("F",))
+            elif op == "resolve":
+                g = r.choice(self.sets["graphs"])
+                c.add("resolve:%s:%s:%s" % (self.fresh("i"), m, g["dir"]), None)
+            elif op == "annot":
+                c.add("annot:%s:%s:ids" % (self.fresh("n"), m), ("O",))
+            else:
+                m2 = self.fresh("m")
+                c.add("clone:%s:%s" % (m, m2), ("O",))
+                c.add("equals:%s:%s" % (m, m2), ("O",))
+        return c
+
     def reset_case(self):
         """(bad input, good input) on one instance, then the good input on a fresh instance"""
         r = self.rng
@@ -889,6 +968,7 @@ class Judge:
         self.noises = {}
         self.classes = {}
         self.interferers = {}
+        self.statuses = {}
         self.hist["interference_checks"] = 0
 
     def violation(self, what, case, detail):
@@ -931,8 +1011,15 @@ class Judge:
                                 "UL": "flattenModel changed a model held by an import source / the importer's library",
                                 "P": "analyseModel changed an AnalyserModel handed out by an earlier call"}[k]
                         self.violation(what, case, {"step": case.steps[idx][0], "index": idx, "fields": d})
-            if name == "generate" and d.get("U") == "0":
-                pass
+            if d.get("RN") == "0":
+                self.hist["mutation_checks"] += 1
+                self.violation("%s returned the very object it was given instead of a new one" % name, case,
+                               {"step": case.steps[idx][0], "index": idx, "fields": d})
+            if name == "flatten" and d.get("RS", "0") != "0":
+                self.violation("the model returned by flattenModel shares objects with the model it was given", case,
+                               {"step": case.steps[idx][0], "index": idx, "fields": d})
+            if name == "flatten" and "st" in d:
+                self.statuses[d["st"]] = self.statuses.get(d["st"], 0) + 1
         # -- groups
         groups = {}
         for idx, (cpp, ms, grp) in enumerate(case.steps):
@@ -1085,7 +1172,7 @@ class Judge:
 def build_cases(ctx, inp, sets, quick):
     b = Builder(ctx.rng, inp, sets)
     cases = b.special_cases()
-    n_triples = 600 if quick else 13000
+    n_triples = 600 if quick else 11000
     n_reset = 80 if quick else 1000
     n_interfere = 330 if quick else 7000
     n0 = len(cases)
@@ -1101,6 +1188,8 @@ def build_cases(ctx, inp, sets, quick):
             k += 1
     for _ in range(n_interfere):
         cases.append(b.interfere())
+    for _ in range(150 if quick else 3000):
+        cases.append(b.immut_case())
     return cases
 
 
@@ -1293,6 +1382,7 @@ def run(ctx):
                        "instance as the operation; distinct by the text of the history")
     ctx.cov["input_distribution"] = {"operations": judge.ops, "noise": judge.noises, "counters": judge.hist,
                                      "interferers_of_same_instance_histories": judge.interferers,
+                                     "status_of_models_given_to_flattenModel": judge.statuses,
                                      "inputs": {k: len(v) if isinstance(v, list) else 1 for k, v in sets.items()}}
     ctx.cov["samples"] = [cases[0].text()[:300], cases[len(cases) // 3].text()[:300], cases[-1].text()[:300]]
     ctx.cov["traces_validated_against_impl"] = judge.hist["modelled_cases"]
